@@ -122,7 +122,11 @@ func (x *Exec) instr(fr *Frame, st *State, ins ssa.Instruction) error {
 			fr.regs[t] = Val{T: t.Type(), P: ptrTo(Addr{Kind: ALocal, T: et, Var: key})}
 			return nil
 		}
-		ref := u.NewRef(st, t.Comment)
+		tid := 0
+		if classify(et) == KStruct {
+			tid = structTypeID(et)
+		}
+		ref := u.NewRefTyped(st, t.Comment, tid)
 		if classify(et) == KStruct {
 			u.StoreStruct(st, True, ref, et, u.ZeroVal(et))
 			fr.regs[t] = Val{T: t.Type(), S: []Term{ref}}
@@ -981,8 +985,16 @@ func (x *Exec) lookup(fr *Frame, st *State, t *ssa.Lookup) error {
 
 // assumeMapFacts: card >= 0.
 func (x *Exec) assumeMapFacts(st *State, mt *types.Map, m Term) {
-	c := Select(x.u.comp(st, mapCardComp(mt.Key(), mt.Elem()), ArrSort(SInt, SInt)), m)
-	x.u.Assume(Ge(c, IntLit(0)))
+	u := x.u
+	c := Select(u.comp(st, mapCardComp(mt.Key(), mt.Elem()), ArrSort(SInt, SInt)), m)
+	u.Assume(Ge(c, IntLit(0)))
+	// cardinality and domain agree at the two ends: an empty map has no key, a non-empty one has some key
+	ks := u.keySort(mt.Key())
+	dom := Select(u.comp(st, mapDomComp(mt.Key(), mt.Elem()), ArrSort(SInt, ArrSort(ks, SBool))), m)
+	u.Assume(Implies(Eq(c, IntLit(0)), Term{fmt.Sprintf("(forall ((qk %s)) (! (not (select %s qk)) :pattern ((select %s qk))))", ks, dom.S, dom.S), SBool}))
+	w := u.Fresh("mapwit", ks)
+	u.Assume(Implies(Gt(c, IntLit(0)), Select(dom, w)))
+	u.Trust("maps are finite: len(m) == 0 iff m has no key")
 }
 
 func (x *Exec) slice(fr *Frame, st *State, t *ssa.Slice) error {
